@@ -149,6 +149,7 @@ type HarnessResult struct {
 	truncated       bool
 	pkgDir          string
 	FallbackAnswers int
+	AllDecisions    int
 }
 
 type Explorer struct {
@@ -854,6 +855,7 @@ func (in *Interp) runPath(fn *ssa.Function, prefix []Decision) {
 		}
 	}
 	r.Decisions += P.branchesSym
+	r.AllDecisions += len(P.decisions)
 	r.ChecksProved += P.checksOK
 	r.ChecksConst += P.checksConst
 	r.Unknowns += P.unknowns
